@@ -164,6 +164,20 @@ CHECKS.update({
         design="8 C20"),
 })
 
+CHECKS.update({
+    "C01": dict(
+        text="Layer 1 (contract proof on the real SQLite visitor, per handler per path): the text is well-formed, reads with SQLite precedence as "
+             "the prescribed translation of the node with the children's translations in the filter's order and grouping (C09's obligations, SQLite "
+             "families), every built-in function yields exactly its entry of the translation table S_sqlite (which SQL function, which argument "
+             "where, the +1 of substring, the -1 of indexof, the strftime letter), booleans are 1/0 by value. Layer 2 (bounded, labelled, not "
+             "counted): the real visitor's WHERE clause run on in-memory SQLite over the adversarial value domain vs reference semantics.",
+        note="That S_sqlite means the filter's denotation on SQLite is a fact about SQLite's evaluator, outside any contract on repository code: "
+             "bounded only (107 filters x 400/4000 rows); its mismatches (LIKE case-insensitivity, LIKE wildcards, round of negative halves, weak "
+             "function templates) are recorded findings. geo.*, set functions, matchesPattern, durations, lambdas are outside the fragment.",
+        technique="contracts on the real SQLite visitor (pyvc + SQL reader) against a translation table; bounded conformance of the table on real SQLite",
+        design="8 C01"),
+})
+
 NOT_APPLICABLE = {
     "C02": "the rows a Django QuerySet returns are decided by Django's SQL compiler and SQLite, not by any function in /repo; no contract on repo code can express it (DESIGN section 9)",
     "C03": "row semantics are decided by SQLAlchemy's compiler (operator rendering, contains escaping, boolean rendering) and SQLite (DESIGN section 9)",
